@@ -1,5 +1,6 @@
 """C20 — ACN-Data client yields every session once and converts times faithfully."""
 import copy
+import json
 import random
 import sys
 import zoneinfo
@@ -33,7 +34,7 @@ ANCHORS = [
     "acnportal.acndata.utils:parse_dates",
 ]
 REQUIRED = ["interleaved_scenarios", "scenarios_judged", "multi_page_scenarios", "empty_page_scenarios", "zero_document_scenarios", "timeseries_scenarios",
-            "time_filter_scenarios", "date_fields_checked", "timeseries_timestamps_checked", "timeseries_straddling_offset_change", "chains_of_over_1000_pages", "meta_block:small", "meta_block:absent", "meta_block:zero", "round_trips", "tzinfo:zoneinfo", "zoneinfo_fold_1_with_microseconds", "invalid_site_rejections", "calls_leaving_default_options_unmentioned",
+            "time_filter_scenarios", "date_fields_checked", "timeseries_timestamps_checked", "timeseries_straddling_offset_change", "chains_of_over_1000_pages", "meta_block:small", "meta_block:absent", "meta_block:zero", "round_trips", "tzinfo:zoneinfo", "zoneinfo_fold_1_with_microseconds", "invalid_site_rejections", "calls_leaving_default_options_unmentioned", "filters_with_template_characters", "filter_form:json",
             "regime:dst-transition-instant"]
 BUDGET_S = {"quick": 200, "thorough": 2400}
 ZONES = ["America/Los_Angeles", "America/New_York", "Europe/London", "Asia/Kolkata", "Australia/Sydney", "UTC",
@@ -158,13 +159,30 @@ def _run_paging(case, obs):
             exp = [d["_id"] for d in docs]
         elif mode == "args":
             me = rng.choice([5.0, 20.0])
-            sent = {"cond": f"kWhDelivered > {me}", "project": rng.choice([None, "kWhDelivered"]),
+            # the filter is an opaque string to the client; the API documents python-like expressions and MongoDB-style JSON
+            # objects, and either may carry characters that mean something to str.format / %-formatting / templates
+            form = rng.choice(["py", "py", "json", "json_user", "py_user_ne", "py_user_eq"])
+            uid = rng.choice(["000123", "{0}", "%s%d", "{site}{limit}", "a{b}c%(x)s", "$HOME ${x}", "\\1 \\g<0>"])
+            if form == "py":
+                cond_, keep_ = f"kWhDelivered > {me}", (lambda d: d["kWhDelivered"] > me)
+            elif form == "json":
+                cond_, keep_ = json.dumps({"kWhDelivered": {"$gt": me}}), (lambda d: d["kWhDelivered"] > me)
+            elif form == "json_user":
+                cond_, keep_ = json.dumps({"userID": "000123", "kWhDelivered": {"$gte": me}}), (lambda d: d["userID"] == "000123" and d["kWhDelivered"] >= me)
+            elif form == "py_user_ne":
+                cond_, keep_ = f'kWhDelivered > {me} and userID != "{uid}"', (lambda d: d["kWhDelivered"] > me and d["userID"] != uid)
+            else:
+                cond_, keep_ = f'userID == "{uid}"', (lambda d: d["userID"] == uid)
+            obs.ev("filter_form:" + form)
+            if any(c_ in cond_ for c_ in "{%$\\"):
+                obs.ev("filters_with_template_characters")
+            sent = {"cond": cond_, "project": rng.choice([None, "kWhDelivered"]),
                     "sort": rng.choice([None, "connectionTime", "disconnectTime"])}
             akw_ = dict(cond=sent["cond"], project=sent["project"], sort=sent["sort"])
             if terse:
                 akw_ = {k_: v_ for k_, v_ in akw_.items() if v_ is not None}
             got = list(client.get_sessions(site, **akw_, **tskw))
-            sel = [d for d in docs if d["kWhDelivered"] > me]
+            sel = [d for d in docs if keep_(d)]
             if sent["sort"]:
                 sel = sorted(sel, key=lambda d: parsedate_to_datetime(d[sent["sort"]]))
             exp = [d["_id"] for d in sel]
